@@ -42,6 +42,10 @@ def filters_for(byname):
         f["wrongname"] = {names[0]: {byname[names[-1]][0]}}
     else:
         f["wrongname"] = {names[0]: {"nosuch"}}
+    # every trace listed, keys in ascending / descending name order (more
+    # ids than a small batch size; the order of the filter must not matter)
+    f["all_asc"] = {nm: set(byname[nm]) for nm in names}
+    f["all_desc"] = {nm: set(byname[nm]) for nm in reversed(names)}
     return f
 
 
@@ -189,13 +193,13 @@ def collect(tier, tasks, results, ctx):
         "traces_validated_against_impl": n,
         "evaluations": n, "distinct_nontrivial": nontrivial,
         "rule": "every multiset of traces (4 shapes x 3 workflow names) up "
-                "to the bound x 5 batch sizes x 3 ingestion orders x 5 "
+                "to the bound x 5 batch sizes x 3 ingestion orders x 7 "
                 "filters x 2 consumers; non-trivial = stores with at least "
                 "two traces",
         "samples": [{"store": tasks[len(tasks) // 2]["stores"][0],
                      "batch_sizes": list(BATCHES),
                      "filters": ["none", "allofone", "oneper", "wrongname",
-                                 "norows"],
+                                 "norows", "all_asc", "all_desc"],
                      "consumers": ["pipeline", "nested"]}],
         "exhaustive": True,
         "bounds": {"tier": tier, "stores": "<= 2 traces, plus 3 traces over "
